@@ -55,23 +55,47 @@ def global_reads(modname, qualname):
     return free, glob, attr_store, mutable_defaults
 
 
-def generate_static(ctx):
-    """AST-level frame: which module-level names the solver functions read or write."""
-    def thunk(run):
-        for fq, allowed in ALLOWED_GLOBALS.items():
+STATIC = {
+    # function -> properties whose statement says "depends only on its arguments / equals the pipeline"
+    "bldfm.solver:steady_state_transport_solver": {"C12", "C15"},
+    "bldfm.solver:ivp_solver": {"C12"},
+    "bldfm.interface:run_bldfm_single": {"C13", "C12"},
+    "bldfm.interface:run_bldfm_timeseries": {"C14"},
+    "bldfm.interface:run_bldfm_multitower": {"C14"},
+    "bldfm.interface:run_bldfm_parallel": {"C14"},
+    "bldfm.utils:ideal_source": {"C13"},
+    "bldfm.utils:compute_wind_fields": {"C13", "C08"},
+    "bldfm.pbl_model:vertical_profiles": {"C13", "C09"},
+    "bldfm.pbl_model:psi": {"C09"},
+    "bldfm.pbl_model:phi": {"C09"},
+}
+
+
+def generate_static(ctx, only=None):
+    """AST-level frame: the function reads no MUTABLE module-level state (a memo dict, an
+    accumulator list, a rebinding through `global`), writes no module attribute and has no
+    mutable default argument.  Module-level functions, classes, imports and constants are fine."""
+    from pyvc.harness import module_level_binding
+    for fq, props in STATIC.items():
+        if only and fq not in only:
+            continue
+        if not ctx.wants(props):
+            continue
+
+        def thunk(run, fq=fq, props=props):
             modname, qual = fq.split(":")
             free, glob, attr_store, mdef = global_reads(modname, qual)
             run.scope = fq.replace("bldfm.", "")
-            extra = sorted(free - allowed)
-            run.oblige("frame.reads-no-other-module-state", SBool(not extra), kind="frame",
-                       meta={"unexpected_module_level_names": extra})
-            run.oblige("frame.declares-no-global", SBool(not glob), kind="frame", meta={"global": sorted(glob)})
-            bad_attr = [a for a in attr_store]
-            run.oblige("frame.writes-no-module-attribute", SBool(not bad_attr), kind="frame", meta={"stores": bad_attr})
-            run.oblige("frame.no-mutable-default-argument", SBool(not mdef), kind="frame", meta={"defaults": mdef})
+            mutable = sorted(n for n in free if (module_level_binding(modname, n) or ("", None))[0] == "mutable")
+            run.oblige("frame.reads-no-mutable-module-state", SBool(not mutable), kind="frame", props=props,
+                       meta={"mutable_module_level_names_read": mutable})
+            run.oblige("frame.declares-no-global", SBool(not glob), kind="frame", props=props, meta={"global": sorted(glob)})
+            if fq.startswith("bldfm.solver"):
+                run.oblige("frame.writes-no-module-attribute", SBool(not attr_store), kind="frame", props=props, meta={"stores": attr_store})
+            run.oblige("frame.no-mutable-default-argument", SBool(not mdef), kind="frame", props=props, meta={"defaults": mdef})
             info = frontend.FuncInfo(modname, qual, frontend.module(modname).find(qual), frontend.module(modname))
             ctx.add_function(info)
-    ctx.explore("solver:static-frames", thunk, PROPS)
+        ctx.explore("static-frames:" + fq, thunk, props)
 
 
 def generate_solver(ctx):
